@@ -48,7 +48,7 @@ def build_split(rng, depth, prefix, rel_dir):
 
 def run(chk):
     quick = chk.tier == "quick"
-    n = 110 if quick else 2500
+    n = 110 if quick else 1200
     broken = chk.proof_obligations(["Corr/Front.vo"])
     chk.coverage["rule"] = (
         "a tree of module files (depth <= 3, dotted paths a.b.m resolved relative to the importing file) each holding self-contained front-profile "
